@@ -1748,10 +1748,10 @@ var safeSet = [utf8.RuneSelf]bool{
 }
 
 func (s *PrintCtx) appendBytes(z []byte) {
-	_, err := s.Write(z)
-	if err != nil {
-		hintInternal(err, "PrintCtx: appendBytes failed")
-	}
+	// quoted and escaped like a string value: written raw, the bytes could
+	// hold quotes, spaces, line breaks or terminal escape sequences and break
+	// (or forge) the record in every output format.
+	s.pcQuoteValue(string(z))
 }
 
 func (s *PrintCtx) appendStringSlice(val []string) {
